@@ -54,8 +54,14 @@ def ver_of(code):
     return [code // 10, code % 10]
 
 
+FAR_DATE = 10 ** 17        # what the model's largest integer stands for in a date filter (TLC integers are 32-bit)
+
+
 def denorm_attr(a):
-    return {"name": a["name"], "idx": a.get("idx", -1), "v": a["v"]}
+    v = a["v"]
+    if a["name"] == "Initial Date" and v == 2147483647:
+        v = FAR_DATE
+    return {"name": a["name"], "idx": a.get("idx", -1), "v": v}
 
 
 def denorm_p(op, p, ver):
@@ -83,7 +89,7 @@ def denorm_p(op, p, ver):
             w = p["w"]
             out["wrap"] = {"method": w["method"], "kuid": w["kuid"] if w["haskey"] else None,
                            "muid": 1 if w["hasmac"] else None, "anames": ["Name"] if w["anames"] else None,
-                           "enc": w["enc"], "mode": "NIST_KEY_WRAP"}
+                           "enc": w["enc"], "mode": "NIST_KEY_WRAP", "nocp": bool(w.get("nocp"))}
         return out
     if op == "GetAttributes":
         return {"uid": p["uid"], "names": list(p["names"])}
